@@ -2,6 +2,7 @@
 Helper lemmas for C11: byte-list facts about the range wrapper model. Core Lean only.
 -/
 import WzVerif.Model.Conditional
+import WzVerif.Lemmas.DateText
 namespace Wz.Cond
 open Wz
 
@@ -372,5 +373,32 @@ theorem parseRangeHeader_bytes (specs : Str) :
 
 theorem digits_no_comma {d : Str} (h : ∀ c ∈ d, isDigitA c = true) : ∀ c ∈ d, c ≠ ',' :=
   fun c hc => digit_ne (h c hc) (by decide)
+
+/-! ### dates as text (C06's IMF-fixdate model) -/
+
+/-- an instant (seconds from 0001-01-01) that `http_date` writes with a year 0100 … 9999 -/
+def InDateRange (t : Nat) : Prop := Date.tMin ≤ t ∧ t ≤ Date.tMax
+
+theorem dateOfText_httpDate (t : Nat) (h : InDateRange t) :
+    dateOfText (some (Date.httpDate t)) = some (t : Int) := by
+  simp [dateOfText, Date.date_roundtrip_any t h.1 h.2]
+
+theorem httpDate_ne_nil (t : Nat) (h : InDateRange t) : Date.httpDate t ≠ [] := by
+  intro e
+  have := Date.date_roundtrip_any t h.1 h.2
+  rw [e] at this
+  simp [Date.parseDate, Date.parseImfFixdate] at this
+
+theorem filter_nonEmpty_flatten (chunks : List Bytes) :
+    (chunks.filter (!·.isEmpty)).flatten = chunks.flatten := by
+  induction chunks with
+  | nil => rfl
+  | cons c cs ih =>
+    simp only [List.filter_cons, List.flatten_cons]
+    cases hc : c.isEmpty with
+    | true =>
+      have : c = [] := by simpa using hc
+      simp [this, ih]
+    | false => simp [ih]
 
 end Wz.Cond
